@@ -38,9 +38,10 @@ def _bounds(entry, cfg, tier):
         cfg['max_expo'] = e
     if entry == 'fast_SIS':
         # several initial infections multiply the event orderings: 8 exponential draws only from a single initial node
-        cfg['max_expo'] = 2 * e if len(cfg.get('I0') or [0]) <= 1 else 6
+        cfg['max_expo'] = 2 * e if (len(cfg.get('I0') or [0]) <= 1 and graphs.ALL[cfg.get('graph', 'P3')][0] <= 3) else 6
     if entry == 'fast_nonMarkov_SIS':
-        cfg['max_infections'] = e
+        g_ = cfg.get('graph', 'P3')
+        cfg['max_infections'] = e if (len(cfg.get('I0') or [0]) <= 1 and graphs.ALL[g_][0] <= 3 and g_ != 'K3') else 3
         cfg['delays_per_pair'] = 1
     if 'discrete' in entry:
         cfg['tmax'] = 'steps:%d' % e
